@@ -522,6 +522,41 @@ func codecCase(rep *Report, s *glue.Subject, d MD, idx int) {
 		rep.Violate("C07", "codec/readonly-call-mutates-struct", tn, "struct changed by Size/Marshal/MarshalAppend", rc)
 	}
 
+	// --- C01/C04: partial messages (required fields of embedded proto2 messages left out) with AllowPartial
+	if idx%2 == 0 && hasRequiredBelow(d) {
+		markProp("C01")
+		o2 := defaultGen()
+		o2.OmitRequired = true
+		o2.NoSNaN = true
+		pv := NewGen(seed^0x9a, o2).Msg(d, 0)
+		pexp := SpecEncode(pv)
+		P := BuildStruct(s.Zero, pv)
+		ap := proto.MarshalOptions{AllowPartial: true, Deterministic: true}
+		var pb []byte
+		var perr error
+		var psz int
+		pan, pmsg = safely(func() { psz = ap.Size(P); pb, perr = ap.Marshal(P) })
+		rep.Count("C01", "partial-messages-with-allowpartial", 1)
+		switch {
+		case pan || perr != nil:
+			rep.Violate("C01", "codec/allowpartial/marshal-fails", tn, fmt.Sprintf("Marshal with AllowPartial of a message whose embedded proto2 message lacks a required field: err=%v %s", perr, pmsg), rc)
+			rep.Violate("C04", "codec/allowpartial/marshal-fails", tn, fmt.Sprintf("Size=%d but Marshal with AllowPartial fails: err=%v %s", psz, perr, pmsg), rc)
+		case !bytes.Equal(pb, pexp):
+			rep.Violate("C01", "codec/allowpartial/encoding-not-the-value", tn, firstDiff(pb, pexp), rc)
+		case psz != len(pexp):
+			rep.Violate("C04", "codec/size/allowpartial", tn, fmt.Sprintf("Size=%d, encoding has %d bytes", psz, len(pexp)), rc)
+		default:
+			fresh := newOf(s.Zero)
+			var uerr error
+			pan, pmsg = safely(func() { uerr = proto.UnmarshalOptions{AllowPartial: true}.Unmarshal(pb, fresh) })
+			if pan || uerr != nil {
+				rep.Violate("C01", "codec/allowpartial/unmarshal-fails", tn, fmt.Sprintf("Unmarshal with AllowPartial of own output: err=%v %s", uerr, pmsg), rc)
+			} else if got := SpecEncode(Canon(StructToIR(fresh))); !bytes.Equal(got, SpecEncode(Canon(pv))) {
+				rep.Violate("C01", "codec/allowpartial/roundtrip", tn, firstDiff(got, SpecEncode(Canon(pv))), rc)
+			}
+		}
+	}
+
 	// --- C04/C02: sizes are computed from the message as it is now, never remembered: after the calls above (which
 	// may have filled size caches at every level) nested messages are changed in place and the message is sized and
 	// marshalled again through every entry point.
